@@ -19,13 +19,14 @@ TRAFFIC = {
     "allwrite":   [dict(profile="uniform", ncmd=3000, gap=0, dir="w"), dict(profile="samerow", ncmd=3000, gap=0, dir="w", seed=3)],
     "allread":    [dict(profile="uniform", ncmd=3000, gap=0, dir="r"), dict(profile="samerow", ncmd=3000, gap=0, dir="r", seed=4)],
     "idle":       [dict(profile="bursty", ncmd=400)],
+    "sparse":     [dict(profile="uniform", ncmd=450, gap=100)],       # long, cheap run: rounding errors of tREFI accumulate
 }
 
 
 def scenarios(tier, seed):
     out = []
     if tier == "quick":
-        plan = [("SDR", "saturating", 1, 1003), ("SDR", "singlebank", 2, 1250), ("SDR166", "allwrite", 4, 1207),
+        plan = [("SDR", "sparse", 1, 1001), ("SDR166", "sparse", 2, 1003), ("SDR", "saturating", 1, 1003), ("SDR", "singlebank", 2, 1250), ("SDR166", "allwrite", 4, 1207),
                 ("DDR3", "allread", 1, 1507), ("DDR3", "saturating", 8, 1300), ("DDR", "idle", 2, 1111),
                 ("DDR3_200", "singlebank", 1, 1003), ("DDR4", "saturating", 2, 1409)]
     else:
@@ -46,10 +47,43 @@ def scenarios(tier, seed):
             ctrl["refresh_zqcs_freq"] = 40000.0 if i % 2 == 0 else 15000.0
         out.append(scenario("%s-%s-N%d-refi%d" % (b, tr, n, refi), b, ports, seed * 13 + i, tech=dict(tREFI=refi), ctrl=ctrl,
                             max_cycles=250000))
+    for j, (n, zq) in enumerate([(1, False), (2, True), (4, True), (8, True)] if tier == "quick" else
+                                [(n, zq) for n in (1, 2, 3, 4, 8) for zq in (False, True)]):
+        out.append(dict(name="lockstep-refresher-N%d-%s" % (n, "zq" if zq else "nozq"), kind="lockstep", seed=seed * 17 + j,
+                        ncyc=8000 if tier == "quick" else 30000,
+                        params=dict(tREFI=100 + 7 * n + j, N=n, tRP=2 + j % 3, tRFC=9 + j, tZQCS=5 + j % 4, zq=zq, zqperiod=601 + 90 * j, dmax=25)))
     return out
 
 
+def _lockstep(sc, workdir):
+    from .. import reflock
+    r = reflock.run_ref(sc, workdir)
+    notes = []
+    if r["mismatches"]:
+        notes.append("MODEL-DRIFT module=Refresher cycle=%s signal=%s (D_Refresher no longer equals the code; exhaustive result not bound)"
+                     % (r["mismatches"][0][0], r["mismatches"][0][1]))
+    return dict(bad=[], evaluations=r["cycles"], nontrivial=[["lockstep", sc["name"]]] if r["refs"] > 10 else [], traces=1,
+                sample=dict(consts=r["consts"], refs=r["refs"], zqs=r["zqs"], first=r["sample"]), notes=notes,
+                lockstep=r["cycles"], stats=dict(lockstep_cycles=r["cycles"]))
+
+
+def models(tier, seed):
+    ms = [dict(module="MC_Refresher", cfg="MC_Refresher_quick.cfg", label="refresher N=2 +ZQCS", workers=3, timeout=2400),
+          dict(module="MC_Refresher", cfg="MC_Refresher_n1.cfg", label="refresher N=1", workers=2, timeout=2400),
+          dict(module="MC_Refresher", cfg="MC_Refresher_neg_zqpulse.cfg", label="negative control: one-cycle ZQCS request", workers=2, timeout=2400, expect_violation=True),
+          dict(module="MC_Refresher", cfg="MC_Refresher_neg_ceil.cfg", label="negative control: timer period tREFI+1", workers=2, timeout=2400, expect_violation=True),
+          dict(module="MC_Refresher", cfg="MC_Refresher_cover_zq.cfg", label="cover: ZQCS on the bus", workers=1, timeout=1200, expect_violation=True),
+          dict(module="MC_Refresher", cfg="MC_Refresher_cover_burst.cfg", label="cover: last REF of a postponed burst", workers=1, timeout=1200, expect_violation=True),
+          dict(module="MC_Refresher", cfg="MC_Refresher_cover_late.cfg", label="cover: grant after the worst delay", workers=1, timeout=1200, expect_violation=True)]
+    if tier == "thorough":
+        ms += [dict(module="MC_Refresher", cfg="MC_Refresher_n3.cfg", label="refresher N=3 +ZQCS", workers=4, timeout=3000),
+               dict(module="MC_Refresher", cfg="MC_Refresher_n8.cfg", label="refresher N=8 +ZQCS", workers=4, timeout=3000)]
+    return ms
+
+
 def execute(sc, workdir):
+    if sc.get("kind") == "lockstep":
+        return _lockstep(sc, workdir)
     r = execute_core(sc, workdir, ID, ("dev", "ref"))
     nref = r["info"]["nref"]
     r["nontrivial"] = [[sc["name"].rsplit("-refi", 1)[0]]] if nref >= 20 else []
